@@ -199,6 +199,68 @@ func nestedAdjacency(r *rng, quick bool, emit func(string)) {
 	}
 }
 
+// "programs of arbitrary nesting": the random generator stops at depth 3.  Homogeneous and mixed nests of every
+// wrapping construct, 12 to 40 levels deep (printer indentation and precedence state, parser recursion).
+var fam2Wrappers = []string{
+	"(%s)", "[%s]", "{1:%s}", "{%s:1}", "f(%s)", "f(1, %s)", "x => %s", "x => {%s}", "(x, y) => {%s}", "func(){%s}", "func f(a){%s}", "if a {%s}", "if a {b} else {%s}",
+	"if %s {a}", "for a {%s}", "for %s {a}", "-%s", "!%s", "a + %s", "%s + a", "a - (%s)", "%s[0]", "a[%s]", "a[%s:]", "a.(%s)", "(%s).a", "(%s)(1)", "return %s",
+	"macro(){%s}", "len(%s)", "quote(%s)", "a = %s", "a && %s", "%s == 1", "// c\n%s", "%s /* c */", "if a {%s} else if b {%s} else {%s}",
+}
+
+func deepFamily(r *rng, emit func(string)) {
+	wrap := func(w, body string) string { return strings.ReplaceAll(w, "%s", body) }
+	for _, w := range fam2Wrappers {
+		if strings.Count(w, "%s") > 1 {
+			continue
+		}
+		s := "z"
+		for d := 1; d <= 40; d++ {
+			s = wrap(w, s)
+			if d == 12 || d == 40 {
+				emit(s)
+			}
+		}
+	}
+	for i := 0; i < 60; i++ {
+		s := []string{"z", "1", "\"s\"", "z(1)", "[]", "{}"}[r.intn(6)]
+		size := 0
+		for d := 4 + r.intn(24); d > 0 && size < 4000; d-- {
+			s = wrap(fam2Wrappers[r.intn(len(fam2Wrappers))], s)
+			size = len(s)
+		}
+		emit(s)
+	}
+}
+
+// "the full token alphabet": tokens that tokAlphabet (parse.go) lacks, in every ordered pair with every token of the
+// union, with and without a separating space.
+var fam2MoreTokens = []string{
+	"!=", "<=", ">", ">=", ">>", "%", "false", "continue", "first", "rest", "print", "println", "log", "error", "catch", "unquote", "del",
+	"`r`", "1e", "0x", "0b", ".5", "1.", "99999999999999999999", "\x00", "\xff", "\\", "'", "#", "$", "?", "`", "*/", "//", "_",
+}
+
+func tokenPairFamily(emit func(string)) {
+	all := append(append([]string{}, tokAlphabet...), fam2MoreTokens...)
+	isMore := map[string]bool{}
+	for _, t := range fam2MoreTokens {
+		isMore[t] = true
+		emit(t)
+	}
+	for _, a := range all {
+		for _, b := range all {
+			if isMore[a] || isMore[b] {
+				emit(a + " " + b)
+				emit(a + b)
+			}
+		}
+	}
+	for _, a := range fam2MoreTokens {
+		for _, tpl := range []string{"( _ )", "[ _ ]", "{ _ : _ }", "f( _ , _ )", "a _ b", "a = _", "if _ { _ }", "func( _ ){ _ }", "_ => _", "a . _", "a[ _ : _ ]", "return _", "- _"} {
+			emit(strings.ReplaceAll(tpl, "_", a))
+		}
+	}
+}
+
 // formatGapFamilies: hooked into formatGen (format / format03 suites).
 func formatGapFamilies(tier string, r *rng, emit func(string)) {
 	src := func(s string) { emit(hx(s)) }
@@ -207,6 +269,7 @@ func formatGapFamilies(tier string, r *rng, emit func(string)) {
 	dotFamily(tier == "thorough", src)
 	commentFamily(tier == "thorough", src)
 	nestedAdjacency(r, tier != "thorough", src)
+	deepFamily(r, src)
 }
 
 // parseGapFamilies: the same texts for the totality check (parse suite), where most of paramFamily are
@@ -225,4 +288,6 @@ func parseGapFamilies(tier string, r *rng, emit func(string)) {
 	if tier == "thorough" {
 		dotFamily(true, src)
 	}
+	tokenPairFamily(src)
+	deepFamily(r, src)
 }
